@@ -110,6 +110,21 @@ def groupedFields {V : Type} (members : List (Rec V)) : List (Str × Str) :=
 
 def groupedGet {V : Type} (members : List (Rec V)) (k : Str) : Option V := chainGet (members.map (·.slots)) k
 
+/-- the instance attributes `GroupedRecord.__init__` sets on the group object itself (regenerated): Python finds them by
+    normal lookup, before `__getattr__` is ever asked -/
+def groupOwnAttrs : List Str := Gen.groupedOwnAttrs.map cps
+
+/-- `getattr(group, k)`: the group's OWN attribute when it has one of that name (`own k`: its type name, its member
+    list, ...), else the first member that has the slot -/
+def groupedGetattr {V : Type} (own : Str → V) (members : List (Rec V)) (k : Str) : Option V :=
+  if groupOwnAttrs.contains k then some (own k) else groupedGet members k
+
+/-- the value `GroupedRecord._asdict()` holds for a key of the flat view: read from the record that provides the
+    field (`_field_value`) when the source does so (regenerated `Gen.groupedAsdictFromProvider`), else through
+    `getattr(group, k)` -/
+def groupedAsdictGet {V : Type} (own : Str → V) (members : List (Rec V)) (k : Str) : Option V :=
+  if Gen.groupedAsdictFromProvider then groupedGet members k else groupedGetattr own members k
+
 /-- `Record._replace(**kwds)`: `ValueError` when a keyword is not a slot -/
 def replaceRec {V : Type} (ver : V) (r : Rec V) (kvs : List (Str × V)) : Option (Rec V) :=
   if kvs.any (fun p => !(keys r.slots).contains p.1) then Option.none
